@@ -47,11 +47,18 @@ def record(tr, cases, wd, want_kinds):
                         "raw": {"validate": str(v.get("error", ""))[:200], "lib": str(lib.get("error", ""))[:200], "test": str(t.get("error", ""))[:200]}}
             elif c["kind"] == "scalar":
                 sp = load.cps_str(c["cp"])
-                q = {"plain": "", "single": "'", "double": '"'}[c["style"]]
-                text = "v: " + q + sp + q + "\n"
+                st = c["style"]
+                if st in ("plain", "single", "double"):
+                    q = {"plain": "", "single": "'", "double": '"'}[st]
+                    text = "v: " + q + sp + q + "\n"
+                elif st in ("literal", "folded"):
+                    # block scalars with strip chomping: the text, nothing else
+                    text = "v: " + ("|-" if st == "literal" else ">-") + "\n  " + sp + "\n"
+                else:
+                    text = "v: !!" + {"tag-str": "str", "tag-int": "int", "tag-float": "float"}[st] + " " + sp + "\n"
                 v = load.validate_loader(wd, "scalar.yaml", text, [])
                 lib = load.lib_loader(wd, text)
-                t = load.test_loader_types(wd, [text.rstrip("\n")])
+                t = load.test_loader_types(wd, text.rstrip("\n").split("\n"))
 
                 def ty(o):
                     if not o.get("ok"):
